@@ -55,9 +55,11 @@ type FuncContract struct {
 	Ghost      []GhostUpdate
 	Notes      []string
 	Inst       []Clause // instantiation hints (integer shift terms)
+	CheckOnly  []string // bounds obligations only for indexing/slicing of these variables
 	Prune      bool // ask the solver about every conditional edge and do not follow refuted ones
 	Dispatch   map[string]Clause // interface type key -> concrete type: invokes on that interface are calls of the concrete method (obligation: the dynamic type is that type)
 	Check      []string // if set: the only safety obligation kinds generated for this function
+	Unlocks    []*CallSiteSpec // `at unlock #N|#* assert …`: checked at that Unlock; old(e) = the state at the matching Lock
 	Returns    []*CallSiteSpec // `at return #N assert …`: checked at the N-th return statement (source order)
 	Stores     []*CallSiteSpec // `at store Field#N assert …`: checked right after the N-th store (source order) to a field of that name
 	Src        string
@@ -279,6 +281,12 @@ func (c *Contracts) LoadFile(path, pkg string) error {
 				cur.Dispatch = map[string]Clause{}
 			}
 			cur.Dispatch[w[1]] = cl
+		case "check-only":
+			for _, part := range strings.Split(rest(1), ",") {
+				if n := strings.TrimSpace(part); n != "" {
+					cur.CheckOnly = append(cur.CheckOnly, n)
+				}
+			}
 		case "prune":
 			cur.Prune = true
 		case "pure":
@@ -321,6 +329,23 @@ func (c *Contracts) LoadFile(path, pkg string) error {
 			}
 		case "at":
 			// at call <callee>#<n> assert <expr>
+			if len(w) >= 5 && w[1] == "unlock" {
+				ord := -1
+				if w[2] != "#*" {
+					fmt.Sscanf(strings.TrimPrefix(w[2], "#"), "%d", &ord)
+				}
+				if w[3] != "assert" {
+					return fmt.Errorf("%s: only `assert` is allowed at unlocks", src)
+				}
+				cl, err := parseSpecExpr(rest(4), src)
+				if err != nil {
+					return err
+				}
+				us := &CallSiteSpec{Callee: "unlock", Ordinal: ord}
+				us.Asserts = append(us.Asserts, cl)
+				cur.Unlocks = append(cur.Unlocks, us)
+				break
+			}
 			if len(w) >= 5 && w[1] == "return" {
 				ord := 1
 				fmt.Sscanf(strings.TrimPrefix(w[2], "#"), "%d", &ord)
@@ -347,7 +372,11 @@ func (c *Contracts) LoadFile(path, pkg string) error {
 			if len(w) >= 5 && w[1] == "store" {
 				field, ord := w[2], 1
 				if i := strings.LastIndex(field, "#"); i >= 0 {
-					fmt.Sscanf(field[i+1:], "%d", &ord)
+					if field[i+1:] == "*" {
+						ord = -1 // every store to that field (none is fine)
+					} else {
+						fmt.Sscanf(field[i+1:], "%d", &ord)
+					}
 					field = field[:i]
 				}
 				if w[3] != "assert" {
